@@ -3,6 +3,7 @@ import Dashu.Model.Conv.Ieee
 import Dashu.Model.Conv.Prim
 import Dashu.Model.Conv.Ratio
 import Dashu.Model.Conv.Exact
+import Dashu.Model.Conv.Base
 /-
   Driver of group `conv` (C06).  For every op it prints what the property REQUIRES (the spec);
   where a mirrored model exists it is evaluated beside the spec and a difference is reported as
@@ -199,21 +200,11 @@ def ratFastOp (ty : String) (c : RatConsts) (enc : EncConsts) (num0 : Int) (den0
     OutOfBounds; otherwise LossOfPrecision. -/
 def ratTryToFloatOp (ty : String) (F : Ieee) (N : Nat) (num : Int) (den : Nat) : String :=
   let (n, d) := gcdReduce num den
-  let r := ieeeRoundRat F .halfEven n d
-  if r.2 = .exact then ok (fbits ty r.1)
-  else if ¬ isPow2 d then ok (errStr .lossOfPrecision)
-  else
-    let topBit : Int := (bitLen n.natAbs : Int) - (Nat.log2 d : Int)
-    if topBit > F.emax + 1 then ok (errStr .outOfBounds)
-    else if topBit < F.qmin then ok (errStr .lossOfPrecision)
-    else
-      -- odd part of an integer numerator
-      let rec strip (fuel : Nat) (x : Nat) : Nat := match fuel with
-        | 0 => x | f + 1 => if x ≠ 0 ∧ x % 2 = 0 then strip f (x / 2) else x
-      let m := if d = 1 then strip (bitLen n.natAbs) n.natAbs else n.natAbs
-      let fits := m < 2 ^ (N - 1) ∨ (n < 0 ∧ m = 2 ^ (N - 1))
-      if fits ∧ r.1 % F.signBit = F.infBits then ok (errStr .outOfBounds)
-      else ok (errStr .lossOfPrecision)
+  -- the value-level specification (`Model/Conv/Base.lean`), proved equal to the mirrored conversion for every
+  -- rational in lowest terms (`Props.C06.rbig_try_to_f32_kind / _f64_kind`)
+  match ratTryToFloatSpec F N n d with
+  | .ok b => ok (fbits ty b)
+  | .error e => ok (errStr e)
 
 def ratFromFloatOp (d : DecConsts) (b : Nat) : String :=
   match decode d b with
@@ -340,6 +331,14 @@ def fbigToFloatCodeOp (ty : String) (k : IntoConsts) (mode : Mode) (s e : Int) :
   | .ok (bits, fl) => ok (fbits ty bits ++ " " ++ adjName fl)
   | .error kd => panic kd.name
 
+/-- the mirrored `FBig::<R,B>::to_fNN`, `B ≠ 2`: `convert_base::<B,2>` (builder-text's mirrored model) then
+    `into_fNN_internal` with its debug assertion; `none` on the `ln`/`exp` branch (not mirrored) -/
+def fbigToFloatBaseCodeOp (ty : String) (k : IntoConsts) (site : String) (W B : Nat) (mode : Mode) (s e : Int) : Option String :=
+  match fbigToFloatBase k site W B (floatModeOf mode) (Float.FRepr.new B s e) with
+  | none => none
+  | some (.ok (bits, fl)) => some (ok (fbits ty bits ++ " " ++ adjName fl))
+  | some (.error kd) => some (panic kd.name)
+
 def fbigTryToFloatModel (ty : String) (k : IntoConsts) (s e : Int) : String :=
   match fbigTryToFloat k Float.coarseNone (Float.FRepr.new 2 s e) with
   | .ok (.ok b) => ok (fbits ty b)
@@ -454,13 +453,13 @@ def dispatch : Dispatch := fun W op args =>
   | "f.tryto_f64", [a, ex] => do let s ← parseInt a; let e ← parseDec ex; pure (chk2 (fbigTryToFloatModel "f64" into64 s e) (floatTryToIeeeOp "f64" .binary64 s e))
   | "f.to_f32.code", [bs, ms, a, ex] => do
     let B ← parseBase bs; let mode ← Mode.parse ms; let s ← parseInt a; let e ← parseDec ex
-    if B ≠ 2 then none else pure (fbigToFloatCodeOp "f32" into32 mode s e)
+    if B ≠ 2 then fbigToFloatBaseCodeOp "f32" into32 intoSite32 W B mode s e else pure (fbigToFloatCodeOp "f32" into32 mode s e)
   | "f.to_f64.code", [bs, _ms, a, ex] => do
     let B ← parseBase bs; let s ← parseInt a; let e ← parseDec ex
-    if B ≠ 2 then none else pure (fbigToFloatCodeOp "f64" into64 .halfEven s e)
+    if B ≠ 2 then fbigToFloatBaseCodeOp "f64" into64 intoSite64 W B .halfEven s e else pure (fbigToFloatCodeOp "f64" into64 .halfEven s e)
   | "fr.to_f32.code", [bs, a, ex] => do
     let B ← parseBase bs; let s ← parseInt a; let e ← parseDec ex
-    if B ≠ 2 then none else pure (fbigToFloatCodeOp "f32" into32 .halfEven s e)
+    if B ≠ 2 then fbigToFloatBaseCodeOp "f32" into32 intoSite32 W B .halfEven s e else pure (fbigToFloatCodeOp "f32" into32 .halfEven s e)
   | "f.from.rbig", [bs, a, b] => do
     let B ← parseBase bs; let n ← parseInt a; let d ← parseNat b
     if d = 0 then none
